@@ -9,7 +9,7 @@ dune/common/math.hh and fvector.hh.   Core Lean only.
 * `power`, `factorial`, `binomial` over `Int` with an explicit machine-width check `chk` on **every**
   intermediate value (result `none` = some intermediate is not representable in the C++ type);
   `binomial` is the code after `fixes/C17_binomial_overflow.patch`; `binomialOld` is the algorithm of the
-  unrepaired tree, kept to state the defect; `round` is the code after `fixes/C17_round_unsigned.patch`;
+  unrepaired tree, kept to state the defect; `round` is the code after `fixes/C17_round_unsigned.patch`, `trunc` after `fixes/C17_trunc_large.patch`;
 * `sign`; the classifiers `isNaN / isInf / isFinite / isUnordered` over `FieldVector` and `std::complex`.
 -/
 import DuneVerif.Gen.C17
@@ -93,11 +93,16 @@ def round (s : Style) : RStyle → (K → Int) → K → K → Int
   | .towardZero, tr, val, eps => if val > ((0 : Int) : K) then roundDown s tr val eps else roundUp s tr val eps
   | .towardInf, tr, val, eps => if val > ((0 : Int) : K) then roundUp s tr val eps else roundDown s tr val eps
 
-/-- `trunc_t<I, T, cstyle, downward>::trunc`; `uns` = `!std::numeric_limits<I>::is_signed` -/
+/-- `T(lower) == val` (for the numbers the model is run on — no NaN — neither is less than the other) -/
+def sameVal (a b : K) : Bool := !decide (a < b) && !decide (b < a)
+
+/-- `trunc_t<I, T, cstyle, downward>::trunc`; `uns` = `!std::numeric_limits<I>::is_signed`
+    (after fixes/C17_trunc_large.patch: an integer `val` is returned unchanged before `lower+1` is looked at) -/
 def truncDown (s : Style) (uns : Bool) (tr : K → Int) (val eps : K) : Int :=
   if uns && eqS s val ((0 : Int) : K) eps then 0 else
   let lower := tr val
   let lower := if (lower : K) > val then lower - 1 else lower
+  if sameVal (lower : K) val then lower else
   if eqS s ((lower + 1 : Int) : K) val eps then lower + 1 else lower
 
 /-- `trunc_t<I, T, cstyle, upward>::trunc` -/
